@@ -456,6 +456,25 @@ class Models:
     def x_memset(s, st, stack, work, args, ins):
         s.mem_set(st, stack, work, args); return args[0]
 
+    def x_memcmp(s, st, stack, work, args, ins):
+        """byte-wise comparison; result is the sign of the first differing byte pair (as int32)"""
+        e = s.eng; A = e.A
+        n = args[2]
+        if not isinstance(n, int):
+            n = e.concretize(st, stack, work, n, 64, 'memcmp length')
+        if n == 0:
+            return 0
+        if A.name != 'BITS':
+            raise Inconclusive('memcmp in INT mode')
+        a = e.loadbytes(st, args[0], n, 'memcmp', stack); b = e.loadbytes(st, args[1], n, 'memcmp', stack)
+        r = 0
+        for x, y in reversed(list(zip(a, b))):
+            lt = A.icmp(st, 'ult', x, y, 8); ne = A.icmp(st, 'ne', x, y, 8)
+            r = A.ite(st, ne, A.ite(st, lt, MASK(32), 1, 32), r, 32)
+        return r
+
+    x_bcmp = x_memcmp
+
     def mem_copy(s, st, stack, work, args, what):
         e = s.eng
         n = args[2]
